@@ -87,6 +87,7 @@ func (r *run) httpProxyPart(grid []credKind) error {
 		}
 		type item struct {
 			rq     areq
+			how    int // 0 first request, one write | 1 after an unauthenticated GET on the same connection | 2 first segment of 4 bytes
 			id     string
 			status int
 			err    string
@@ -100,27 +101,59 @@ func (r *run) httpProxyPart(grid []credKind) error {
 					rq := mkReq(form, "PH11", target{host: taddr, path: "/x"}, a, pa.raw, n%3)
 					items = append(items, &item{rq: rq, id: fmt.Sprintf("p%d-%d", ci, n)})
 				}
+				// the same request reaching the plugin's http.Server instead of the CONNECT sniffing of Handle
+				n++
+				items = append(items, &item{rq: mkReq(form, "PH11", target{host: taddr, path: "/x"}, "", pa.raw, n%3), how: 1, id: fmt.Sprintf("p%d-%d", ci, n)})
+				if form == "FConnect" {
+					n++
+					items = append(items, &item{rq: mkReq(form, "PH11", target{host: taddr, path: "/x"}, "", pa.raw, n%3), how: 2, id: fmt.Sprintf("p%d-%d", ci, n)})
+				}
 			}
 		}
 		parallel(len(items), 24, func(i int) {
 			it := items[i]
-			var after func(c net.Conn, br *bufio.Reader, first *http.Response) int
-			if it.rq.form == "FConnect" {
-				after = func(c net.Conn, br *bufio.Reader, first *http.Response) int {
-					if first.StatusCode != 200 {
-						return 0
-					}
-					return tunnelGet(c, br, it.id)
+			cn, err := net.DialTimeout("tcp", ln.Addr().String(), 3*time.Second)
+			if err != nil {
+				it.err = err.Error()
+				return
+			}
+			defer cn.Close()
+			_ = cn.SetDeadline(time.Now().Add(8 * time.Second))
+			br := bufio.NewReader(cn)
+			if it.how == 1 {
+				_, _ = fmt.Fprintf(cn, "GET http://%s/x HTTP/1.1\r\nHost: %s\r\nX-Case: %s-pre\r\n\r\n", taddr, taddr, it.id)
+				resp, err := http.ReadResponse(br, &http.Request{Method: "GET"})
+				if err != nil {
+					it.err = "first request of the connection: " + err.Error()
+					return
 				}
+				_, _ = io.Copy(io.Discard, resp.Body)
+				resp.Body.Close()
 			}
 			text := it.rq.wire(it.id)
 			if it.rq.form == "FConnect" {
 				text = strings.Replace(text, "Connection: close\r\n", "", 1)
 			}
-			res := rawDo(ln.Addr().String(), text, it.rq.method, after)
-			it.status = res.status
-			if res.err != nil {
-				it.err = res.err.Error()
+			if it.how == 2 {
+				_, _ = io.WriteString(cn, text[:4])
+				time.Sleep(40 * time.Millisecond)
+				_, _ = io.WriteString(cn, text[4:])
+			} else {
+				_, _ = io.WriteString(cn, text)
+			}
+			resp, err := http.ReadResponse(br, &http.Request{Method: it.rq.method})
+			if err != nil {
+				it.status = 0
+				return
+			}
+			it.status = resp.StatusCode
+			if it.rq.form == "FConnect" {
+				if resp.StatusCode == 200 {
+					tunnelGet(cn, br, it.id)
+				}
+			} else {
+				_, _ = io.Copy(io.Discard, resp.Body)
+				resp.Body.Close()
 			}
 		})
 		csym := fmt.Sprintf("(mk_cfg %s %s)", r.sym.b(c[0]), r.sym.b(c[1]))
@@ -135,12 +168,12 @@ func (r *run) httpProxyPart(grid []credKind) error {
 				_, rest, _ := strings.Cut(it.rq.pauth, " ")
 				u, pw, ok := parseBasicRef("Basic " + rest)
 				if !ok || u != c[0] || pw != c[1] {
-					r.fail("backend-reached-without-credentials:http_proxy:"+it.rq.form,
-						fmt.Sprintf("http_proxy plugin configured with %q:%q relayed a request with Proxy-Authorization user=%q password=%q (parsed=%v)", c[0], c[1], u, pw, ok), it.rq.String())
+					r.fail(fmt.Sprintf("backend-reached-without-credentials:http_proxy:%s:how%d", it.rq.form, it.how),
+						fmt.Sprintf("http_proxy plugin configured with %q:%q relayed a request with Proxy-Authorization user=%q password=%q (parsed=%v); how=%d (0 first request, 1 after an unauthenticated GET on the same connection, 2 request line split after 4 bytes)", c[0], c[1], u, pw, ok, it.how), it.rq.String())
 				}
 			}
-			r.addCase(fmt.Sprintf("CHp %s %s %d %s", csym, it.rq.coq(r.sym), it.status, hx.Bool(reached)), it.rq.pauth != "",
-				"http_proxy:"+it.rq.form, fmt.Sprintf("http_proxy:status-%d", it.status))
+			r.addCase(fmt.Sprintf("CHp %d %s %s %d %s", it.how, csym, it.rq.coq(r.sym), it.status, hx.Bool(reached)), it.rq.pauth != "",
+				"http_proxy:"+it.rq.form, fmt.Sprintf("http_proxy:status-%d", it.status), fmt.Sprintf("http_proxy:how-%d", it.how))
 		}
 		_ = ln.Close()
 		_ = p.Close()
